@@ -29,7 +29,55 @@ W = "econf_writeFile"
 MARKER = "_none_"
 
 
+def w8_w9(prog, ctx):
+    """W8 entries created through the setters are appended (new_key / key_file_append, = C11.A5): the writer relies on the
+    order of entries for the section headers.   W9 a value and its `quotes` flag travel together: wherever an entry's value is
+    replaced by another entry's value, the flag comes from that entry too - or the copy drops the flag for everybody."""
+    from sa.report import Ctx as _Ctx
+    from rules import C11 as _C11
+    sub = _Ctx(ctx.prop, ctx.tier, prog)
+    try:
+        _C11.a5(prog, sub)
+        for ob in sub.obs:
+            ob.rule = "W8"
+            ctx.obs.append(ob)
+    except Inconclusive as e:
+        ctx.inconclusive("W8", "entries are created at the end", "", str(e))
+    cp = prog.fn("cpy_file_entry")
+    ctx.touch(cp)
+    qs = [(rhs, st) for lhs, rhs, st, kind in query.stores(cp) if render(lhs).endswith(".quotes") and rhs is not None]
+    if not qs:
+        ctx.inconclusive("W9", "a value and its quotes flag travel together", cp.where, "cpy_file_entry does not set `quotes`")
+        return
+    copies_flag = any(rhs.const_value() is None for rhs, st in qs)
+    if not copies_flag:
+        ctx.ok("W9", "a value and its quotes flag travel together", qs[0][1].where, "copied entries drop the flag (`%s`): no copy can carry a flag that belongs to another value" % render(qs[0][1]))
+        return
+    bad = None
+    n = 0
+    for h in prog.lib_functions():
+        if not h.calls("cpy_file_entry"):
+            continue
+        for lhs, rhs, st, kind in query.stores(h):
+            l = lhs.resolve() if hasattr(lhs, "resolve") else lhs.strip()
+            if kind == "=" and l.k == "MemberExpr" and l.j.get("member") == "value" and rhs is not None and not rhs.is_null_const():
+                n += 1
+                base = render(l)[:-len(".value")] if render(l).endswith(".value") else render(l.children[0])
+                flag_stores = [s2 for l2, r2, s2, k2 in query.stores(h) if render(l2.resolve() if hasattr(l2, "resolve") else l2) in (base + ".quotes", base + "->quotes")
+                               and h.cfg.block_of(s2) == h.cfg.block_of(st)]
+                if not flag_stores:
+                    bad = bad or (h, st)
+    if bad:
+        ctx.fail("W9", "a value and its quotes flag travel together", bad[1].where,
+                 "cpy_file_entry() now copies `quotes`, and %s replaces the copied entry's value (`%s`) without replacing the flag: an unquoted override "
+                 "of a quoted vendor value is written in quotes (and a continued value then reads back with the quote characters inside)" % (bad[0].name, render(bad[1])[:60]),
+                 key="quotes-not-with-value:%s" % bad[0].name)
+    else:
+        ctx.ok("W9", "a value and its quotes flag travel together", qs[0][1].where, "%d value replacements after a copy, each with its flag" % n)
+
+
 def run(prog, ctx):
+    w8_w9(prog, ctx)
     f = prog.fn(W)
     ctx.touch(f)
     cfg = f.cfg
